@@ -125,6 +125,10 @@ func (sx *server) dhcpOptions(clientMAC net.HardwareAddr) []dhcpmsg.DHCPOpt {
 	} else if sx.lopts.Domain != "" {
 		opts = append(opts, dhcpmsg.OptionDomainName(sx.lopts.Domain))
 	}
+
+	if ok && ov.Hostname != "" {
+		opts = append(opts, dhcpmsg.OptionHostname(ov.Hostname))
+	}
 	return opts
 }
 
